@@ -54,7 +54,7 @@ CONSTANTS
     MaxPersist,    \* at most this many entries in client.persist
     PersistNames,  \* prefix ids a persist entry may use
     PersistFlags,  \* subset of {"on", "off", "omit", "str"}  (str: the entry is a bare string)
-    PersistPreset, \* "free" | "wide" : enumerated / one of two fixed wide lists
+    PersistPreset, \* "free" | "all" | "wide" : enumerated / one fixed list / one of two fixed wide lists
     DefaultSet,    \* subset of BOOLEAN: plugins.default_component_enabled
     PreSet,        \* subset of PreAll: what dr.ENABLED said before the call
     FileDeny,      \* deny entry ids usable in blacklist.files
@@ -187,6 +187,7 @@ AllOn        == <<Entry("x01", "on"), Entry("po", "on"), Entry("io", "on")>>
 ForcedCfg(d) == IF d THEN <<Entry("insights", "off")>> ELSE <<>>
 CfgChoices   == IF CfgPreset = "free" THEN SeqsUpTo(CfgEntries, MaxCfg) ELSE {AllOn}
 PersChoices  == IF PersistPreset = "free" THEN SeqsUpTo(PersEntries, MaxPersist)
+                ELSE IF PersistPreset = "all" THEN {<<Entry("x01", "on"), Entry("po", "str")>>}
                 ELSE {<<Entry("x01", "on"), Entry("po", "str")>>, <<Entry("specs", "omit"), Entry("po", "on")>>}
 OptSeq(S)    == {<<>>} \cup {<<e>> : e \in S}
 DenyChoices  == {d \in [files : OptSeq(FileDeny), commands : OptSeq(CmdDeny), components : OptSeq(CompDeny)] :
